@@ -131,12 +131,15 @@ def run_case(check_id, seed_i, tier):
     _account(res, check, cfg, w, ix, vs)
     st = golden_stats(w)
     golden_final = oracles.final_outcome(w)
+    ginfo = check.golden_info(w, ix)
     plans = check.fault_plans(random.Random(H(seed_i, "faults")), st, prof, tier, cfg, w)
     for j, plan in enumerate(plans):
         c2 = dict(cfg)
         c2["faults"] = plan
         c2["sched"] = dict(cfg["sched"], seed=(cfg["sched"].get("seed", 0) + 7 * (j + 1)) & 0x3FFFFFFF)
-        w2, ix2, vs2 = run_cfg(check, c2, {"final": golden_final, "stats": st})
+        g2 = {"final": golden_final, "stats": st}
+        g2.update(ginfo)
+        w2, ix2, vs2 = run_cfg(check, c2, g2)
         _account(res, check, c2, w2, ix2, vs2)
     return res
 
